@@ -18,7 +18,7 @@ def c02_jobs(tier):
     d = {"keys": T(tier, 2, 4), "inputs": T(tier, 3, 8)}
     return [
         {"variant": "opt", "sub": "c02", "shards": T(tier, 2, 12), "cases": 1, "weight": 1,
-         "args": {"inputs": T(tier, 3, 12), "items": T(tier, 1000, 20000)}, "timeout": T(tier, 1800, 7200)},
+         "args": {"inputs": T(tier, 3, 12), "items": T(tier, 1000, 20000), "search": T(tier, 600000, 2000000)}, "timeout": T(tier, 1800, 7200)},
         # determinism clause: same triples, separate processes / heap fill patterns / builds
         {"variant": "opt", "sub": "c02d", "shards": 1, "args": dict(d, model=1), "env": {"MALLOC_PERTURB_": "0"}, "timeout": 3600},
         {"variant": "opt", "sub": "c02d", "shards": 1, "args": dict(d, guards=1), "env": {"MALLOC_PERTURB_": "255"}, "timeout": 3600},
@@ -79,7 +79,7 @@ CHECKS = {
         "level_note": "Trusted base: the reference model in /verif/model (self-tested against hardware AES, host FPU, FIPS-197 C.1, hashlib.blake2b). Held on the triples explored only.",
         "jobs": c02_jobs,
         "post": c02_post,
-        "rule": "cases are (key, input, version) triples drawn from structured boundary lengths first (key 0/1/12/59/60/61/64/200..., input 0/1/63/64/65/127/128/129/1000/100000...) then random; "
+        "rule": "directed inputs: per run 1.2 million (thorough: 24 million) candidate inputs are screened with the library's own Blake2b / AesGenerator1R / AesGenerator4R for a first-program configuration whose dataset-offset field is maximal or zero (2^-19 each) and the hits are hashed like every other input; cases are (key, input, version) triples drawn from structured boundary lengths first (key 0/1/12/59/60/61/64/200..., input 0/1/63/64/65/127/128/129/1000/100000...) then random; "
                 "a case is non-trivial when all eight programs ran and digest, 8 program buffers and 8 register files were compared with the reference model; distinct by hash of the triple; determinism clause: a further set of triples is hashed by four separate processes (opt build under MALLOC_PERTURB_ 0 and 255 - the latter with the garbage-filling guard allocator -, the asan build, the portable build) and all digests must agree with each other and with the model",
         "assumptions": MODEL_ASSUMPTIONS,
         "floors": ["cache_bytes_compared", "dataset_items_compared", "programs_compared", "regfiles_compared", "digests_compared_model", "v1_hashes", "v2_hashes"],
@@ -269,7 +269,7 @@ CHECKS = {
             {"variant": "asan", "sub": "c08", "shards": T(tier, 4, 8), "cases": T(tier, 4, 60), "args": {"model_items": 50, "full": 0}, "timeout": T(tier, 1800, 10800)},
         ],
         "parallel": 12,
-        "rule": "a case is one partition of a window of the dataset into consecutive randomx_init_dataset calls handed to 1-16 threads: windows start at 0, end at the last item or lie anywhere; counts are 0..9, 4k, 4k+1..3, up to 5000, 1..3 (stack-buffer branch) or 'the rest'; both the interpreter initialiser (default cache) and the compiled one (JIT cache) are used, on odd shards through the LARGE_PAGES variants of the cache objects and on shards 2, 3, 6, 7, ... into a LARGE_PAGES dataset (huge-page requests served by ordinary pages through the interposed mmap); "
+        "rule": "a case is one partition of a window of the dataset into consecutive randomx_init_dataset calls handed to 1-16 threads: windows start at 0, end at the last item or lie anywhere; counts are 0..9, 4k, 4k+1..3, up to 5000, 1..3 (stack-buffer branch) or 'the rest'; one large single call per cache on the first shards (count 65537..135536 resp. 131073..201072 at an interior start: items at the head, around every multiple of 65536, at the tail and 300 random ones compared); both the interpreter initialiser (default cache) and the compiled one (JIT cache) are used, on odd shards through the LARGE_PAGES variants of the cache objects and on shards 2, 3, 6, 7, ... into a LARGE_PAGES dataset (huge-page requests served by ordinary pages through the interposed mmap); "
                 "before the calls the window +- 8 items is filled with a pattern, afterwards the margins must still hold it, every item of the window must equal initDatasetItem and sampled items the model's item; the cache's dataset-init function pointer is wrapped to log (thread, destination, start, end) and the log is checked for containment in the calling thread's request and "
                 "pairwise disjointness across threads; thorough adds the complete dataset by both initialisers on 16 threads (all 34 078 719 items compared, 200 000 against the model); distinct by hash of the partition",
         "assumptions": MODEL_ASSUMPTIONS[:1] + ["the dataset buffer is guard-allocated and lazily committed, only touched windows cost memory"],
